@@ -61,9 +61,10 @@ def pick_target(g, fl, fu):
     return min(fl, fu) + abs(fu - fl) * F(g.randint(0, 64), 64)
 
 
-def gen_case(g, tier):
+def gen_case(g, tier, n=None, scalar=None):
+    """`n` / `scalar`: the number of elements / whether the bracket is one common pair, when the caller fixes them (layout cases)"""
     kind = g.weighted([("affine", 3), ("cubic", 2), ("square", 1)])
-    n = g.small((1, 1, 2, 3, 4, 6))
+    n = g.small((1, 1, 2, 3, 4, 6)) if n is None else n
     dec = g.chance(0.45)
     sgn = -1 if dec else 1
     lo0, hi0 = g.dy(-2, 1, 2), None
@@ -72,6 +73,8 @@ def gen_case(g, tier):
         lo0 = abs(lo0)          # x^2 monotone on x >= 0
         hi0 = lo0 + g.choice([F(1, 2), 1, 2])
     scalar_bracket = g.chance(0.3)
+    if scalar is not None:
+        scalar_bracket = scalar
     coef, lower, upper, target = [], [], [], []
     for i in range(n):
         if kind == "affine":
@@ -130,6 +133,60 @@ def gen_reuse_case(g, tier):
         rounds.append({"target": tgt, "target_tensor": mode})
     c["rounds"] = rounds
     return c
+
+
+BISECT_LAYOUTS = ["(N,1)", "(N,T,1)", "(1,N)", "0-dim", "(1,1)", "mix:fn(N,1)+target(N,T)", "mix:fn(1,T)+target(N,T)", "mix:bracket-0-dim+rest(N,1)"]
+
+
+def gen_layout_case(g, tier, layout):
+    """the problem laid out in tensors with SINGLETON dimensions -- columns (N, 1), (N, T, 1), a row (1, N), 0-dim, (1, 1) -- and broadcastable
+    mixtures: the function's per-element coefficients and its bracket in a column / a row, the targets in the full (N, T) shape; a 0-dim /
+    Python-float bracket with columns.  The case is ALSO described flat (row-major over the broadcast shape: coef / lower / upper / target
+    per element of the result), which is what the model and the root predicate see; "base" = the data as the caller holds it."""
+    N, T = g.choice([2, 3]), g.choice([2, 3, 4])
+    full = {"(N,1)": (N, 1), "(N,T,1)": (N, T, 1), "(1,N)": (1, N), "0-dim": (), "(1,1)": (1, 1), "mix:bracket-0-dim+rest(N,1)": (N, 1)}.get(layout, (N, T))
+    fn_shape = (N, 1) if layout == "mix:fn(N,1)+target(N,T)" else (1, T) if layout == "mix:fn(1,T)+target(N,T)" else full
+    nf = math.prod(fn_shape)
+    base = gen_case(g, tier, n=nf, scalar=True if layout == "mix:bracket-0-dim+rest(N,1)" else None)
+    if layout == "mix:fn(N,1)+target(N,T)":
+        src = [e // T for e in range(N * T)]
+    elif layout == "mix:fn(1,T)+target(N,T)":
+        src = [e % T for e in range(N * T)]
+    else:
+        src = list(range(nf))
+    target, seen = [], set()
+    for i in src:
+        if i in seen:
+            target.append(pick_target(g, f_eval(base["kind"], base["coef"][i], base["lower"][i]), f_eval(base["kind"], base["coef"][i], base["upper"][i])))
+        else:
+            target.append(base["target"][i])
+            seen.add(i)
+    form = g.choice(["pyfloat", "tensor0"]) if base["scalar"] else "tensor"
+    return dict(base, coef=[base["coef"][i] for i in src], lower=[base["lower"][i] for i in src], upper=[base["upper"][i] for i in src], target=target,
+                layout=layout, full_shape=list(full), fn_shape=list(fn_shape), bracket_form=form,
+                base={"coef": base["coef"], "lower": base["lower"], "upper": base["upper"]})
+
+
+def impl_bisect_layout(torch, c):
+    from pfhedge._utils.bisect import bisect
+    dt = torch.float64
+    b, fs, full = c["base"], tuple(c["fn_shape"]), tuple(c["full_shape"])
+    co = [torch.tensor([float(r[j]) for r in b["coef"]], dtype=dt).reshape(fs) for j in range(len(b["coef"][0]))]
+    if c["kind"] == "affine":
+        fn = lambda x: co[0] * x + co[1]
+    elif c["kind"] == "cubic":
+        fn = lambda x: co[0] * x * x * x + co[1] * x + co[2]
+    else:
+        fn = lambda x: co[0] * x * x + co[1]
+    target = torch.tensor([float(x) for x in c["target"]], dtype=dt).reshape(full)
+    if c["bracket_form"] == "pyfloat":
+        lower, upper = float(b["lower"][0]), float(b["upper"][0])
+    elif c["bracket_form"] == "tensor0":
+        lower, upper = torch.tensor(float(b["lower"][0]), dtype=dt), torch.tensor(float(b["upper"][0]), dtype=dt)
+    else:
+        lower = torch.tensor([float(x) for x in b["lower"]], dtype=dt).reshape(fs)
+        upper = torch.tensor([float(x) for x in b["upper"]], dtype=dt).reshape(fs)
+    return call_impl(bisect, fn, target, lower, upper, precision=float(c["precision"]), max_iter=c["max_iter"])
 
 
 def to_req(c):
@@ -342,6 +399,38 @@ def check(ctx):
                 ctx.mutated("bisect", mut, to_req(cj) | {"round": j})
             cases.append(cj)
             impl.append(r)
+    # tensors with singleton dimensions and broadcastable mixtures (every layout for every seed, then random ones): the result must have the
+    # broadcast shape of the inputs; its elements (row-major) go to the model op and to the root predicate like any other case
+    lay_n = len(BISECT_LAYOUTS) * 3 + (40 if ctx.tier == "quick" else 1500)
+    for it_ in range(lay_n):
+        c = gen_layout_case(g, ctx.tier, BISECT_LAYOUTS[it_ % len(BISECT_LAYOUTS)] if it_ < len(BISECT_LAYOUTS) * 3 else g.choice(BISECT_LAYOUTS))
+        st, v, mut = impl_bisect_layout(torch, c)
+        lreq = to_req(c) | {k_: c[k_] for k_ in ("layout", "full_shape", "fn_shape", "bracket_form")}
+        if mut:
+            ctx.mutated("bisect", mut, lreq)
+        if st == "ok":
+            full = tuple(c["full_shape"])
+            # a bracket that is within the precision from the start is handed back as it came (no step broadcasts it): any shape that
+            # broadcasts to the full one is accepted there; after at least one step the result has the broadcast shape of the inputs
+            no_step = max(u - l for l, u in zip(c["lower"], c["upper"])) <= c["precision"]
+            ok_shape = tuple(v.shape) == full
+            if not ok_shape and no_step:
+                try:
+                    ok_shape = tuple(torch.broadcast_shapes(tuple(v.shape), full)) == full
+                except RuntimeError:
+                    ok_shape = False
+            if not ok_shape:
+                ctx.case(lreq, not c["bad"], tag="bisect_layout")
+                ctx.traces += 1
+                ctx.fail("bisect on tensors with singleton dimensions returned a tensor whose shape is not the broadcast shape of the inputs "
+                         "(the search is no longer element-wise)", lreq, key="bisect:singleton-dims:shape",
+                         detail={"result_shape": list(v.shape), "broadcast_shape_of_the_inputs": list(full)})
+                continue
+            r = ("ok", tensor_to_fracs(v.expand(full).reshape(-1)))
+        else:
+            r = ("err", v)
+        cases.append(c)
+        impl.append(r)
     try:
         model = [mres(m) for m in ctx.driver([to_req(c) for c in cases])]
     except DriverBroken as e:
@@ -355,7 +444,12 @@ def check(ctx):
         # kp: the input class of the failure keys -- a first call, or a later call on bracket tensors that were used before
         kp = "bisect:reused-bracket" if c.get("round", 0) > 0 else "bisect"
         again = " (second or later call with the same bracket tensors)" if c.get("round", 0) > 0 else ""
-        if "round" in c:
+        if "layout" in c:
+            kp, again = "bisect:singleton-dims", " (tensors with singleton dimensions: " + c["layout"] + ")"
+            creq = to_req(c) | {k_: c[k_] for k_ in ("layout", "full_shape", "fn_shape", "bracket_form")}
+            ctx.case(creq, nontrivial=not c["bad"], tag="bisect_layout")
+            ctx.stats[f"bisect_layout={c['layout']}"] += 1
+        elif "round" in c:
             creq = to_req(c) | {"scalar": False, "round": c["round"], "target_tensor": c["target_tensor"]}
             ctx.case(creq, nontrivial=True, tag="bisect_reused_bracket" if c["round"] > 0 else "bisect_full_shape_bracket_first_call")
             ctx.stats[f"reused_bracket:round={c['round']}:target_tensor={c['target_tensor']}"] += 1
@@ -459,6 +553,7 @@ def check(ctx):
     # the European binary price N(d2) (call) / 1 - N(d2) (put), d2 = s/w - w/2, w = sigma sqrt(t): for s >= 0 the call DEcreases and the
     # put INcreases in sigma everywhere; for s < 0 the call increases and the put decreases while w^2 < -2s
     BINARY_KINDS = ["binary_itm", "binary_atm", "binary_put_otm", "binary_put_itm"]
+    IV_KINDS_LAYOUT = ["european", "european_put", "lookback", "binary", "american_binary"] + BINARY_KINDS
     for _ in range(270 if ctx.tier == "quick" else 1800):
         which = g.choice(["european", "european_put", "lookback", "binary", "american_binary"] + BINARY_KINDS)
         k = g.choice([0.5, 1.0, 2.0])
@@ -705,6 +800,146 @@ def check(ctx):
                              f"{direction} in volatility" + (" when the bracket / price tensors of an earlier call are used again" if rnd else ""),
                              case, key=kp, detail={"sigma": r, "iv": x, "precision": prec})
                     break
+    # ---------------- inputs in layouts with SINGLETON dimensions and broadcastable mixtures, for every module kind's implied_volatility and for
+    # find_implied_volatility with user pricers: columns (N, 1) -- the layout of the features the modules' forward() consumes --, (N, T, 1), a row (1, N),
+    # 0-dim tensors, (1, 1); the state in a column / 0-dim with the price in the full shape, log moneyness in a column with the maturities in a row.
+    # Predicates: the result has the broadcast shape of the inputs, and every element is within the requested precision of the volatility that
+    # generated that element's price (or, without vega, reproduces the price to float resolution).  Every (kind, layout) pair runs for every seed.
+    IV_LAYOUTS = ["(N,1)", "(N,T,1)", "(1,N)", "0-dim", "(1,1)", "mix:state(N,1)+price(N,T)", "mix:moneyness(N,1)+maturity(1,T)+price(N,T)",
+                  "mix:state-0-dim+price(N,)", "mix:maturity-0-dim+rest(N,1)"]
+
+    def iv_layout_shapes(layout, N, T):
+        """shapes of (log_moneyness and max_log_moneyness, time_to_maturity, volatility and price)"""
+        same = {"(N,1)": (N, 1), "(N,T,1)": (N, T, 1), "(1,N)": (1, N), "0-dim": (), "(1,1)": (1, 1)}
+        if layout in same:
+            return (same[layout],) * 3
+        return {"mix:state(N,1)+price(N,T)": ((N, 1), (N, 1), (N, T)), "mix:moneyness(N,1)+maturity(1,T)+price(N,T)": ((N, 1), (1, T), (N, T)),
+                "mix:state-0-dim+price(N,)": ((), (), (N,)), "mix:maturity-0-dim+rest(N,1)": ((N, 1), (), (N, 1))}[layout]
+    iv_lay_corpus = [(w_, l_) for w_ in IV_KINDS_LAYOUT for l_ in IV_LAYOUTS]
+    for it_ in range(len(iv_lay_corpus) + (0 if ctx.tier == "quick" else 600)):
+        which, layout = iv_lay_corpus[it_] if it_ < len(iv_lay_corpus) else (g.choice(IV_KINDS_LAYOUT), g.choice(IV_LAYOUTS))
+        N, T = g.choice([2, 3]), g.choice([2, 3, 4])
+        sh_s, sh_t, sh_v = iv_layout_shapes(layout, N, T)
+        full = tuple(torch.broadcast_shapes(sh_s, sh_t, sh_v))
+        k = g.choice([0.5, 1.0, 2.0])
+        dt = torch.float64
+        tied = which in ("binary", "binary_put_itm")          # rising in volatility only while sigma^2 t < -2 s: t = -s, or t = 0.02 <= -s
+        ss, ms = [], []
+        for _i in range(math.prod(sh_s)):
+            if which in ("binary", "american_binary", "binary_put_itm"):
+                s = g.r.uniform(-0.3, -0.02)
+            elif which in ("binary_itm", "binary_put_otm"):
+                s = g.r.uniform(0.0, 0.3)
+            elif which == "binary_atm":
+                s = 0.0
+            else:
+                s = g.r.uniform(-0.3, 0.3)
+            ss.append(s)
+            ms.append(s if which == "american_binary" else max(s, 0.0) + g.choice([0.0, 0.1]))
+        if tied:
+            ts = [-s for s in ss] if sh_t == sh_s else [0.02] * math.prod(sh_t)
+        else:
+            ts = [g.choice([0.1, 0.5, 1.0, 2.0]) for _i in range(math.prod(sh_t))]
+        sigs = [g.r.uniform(0.02, 0.95) for _i in range(math.prod(sh_v))]
+        prec = g.choice([1e-6, 1e-9, 1e-4])
+        if which in ("european", "european_put"):
+            m = BSEuropeanOption(call=which == "european", strike=k)
+        elif which == "lookback":
+            m = BSLookbackOption(strike=k)
+        elif which == "american_binary":
+            m = BSAmericanBinaryOption(strike=k)
+        else:
+            m = BSEuropeanBinaryOption(call="put" not in which, strike=k)
+        S, T_, V = torch.tensor(ss, dtype=dt).reshape(sh_s), torch.tensor(ts, dtype=dt).reshape(sh_t), torch.tensor(sigs, dtype=dt).reshape(sh_v)
+        state = (S, torch.tensor(ms, dtype=dt).reshape(sh_s), T_) if which in ("lookback", "american_binary") else (S, T_)
+        case = {"which": which, "layout": layout, "log_moneyness": S.tolist(), "time_to_maturity": T_.tolist(), "sigma": V.tolist(), "k": k, "precision": prec,
+                "shapes": [list(sh_s), list(sh_t), list(sh_v)]}
+        if len(state) == 3:
+            case["max_log_moneyness"] = state[1].tolist()
+        kp = f"implied_volatility:{which}:singleton-dims"
+        st, P, _m = call_impl(m.price, *state, V)
+        if st != "ok" or tuple(P.shape) != full:
+            ctx.stats["iv_layout:price() itself raised / has another shape than the broadcast one (skipped: premise of the round trip)"] += 1
+            continue
+        P = P.detach()
+        st, iv, mut = call_impl(m.implied_volatility, *state, P, precision=prec)
+        ctx.case(case, True, tag="iv_layout_" + which)
+        ctx.stats[f"iv_layout={layout}"] += 1
+        ctx.traces += 1
+        if mut:
+            ctx.mutated(f"implied_volatility:{which}", mut, case)
+        if st != "ok":
+            ctx.fail("implied_volatility raised for a price generated by the same module (inputs with singleton dimensions: " + layout + ")", case,
+                     key=kp + ":error", detail=iv)
+            continue
+        if tuple(iv.shape) != full:
+            ctx.fail("implied_volatility of inputs with singleton dimensions (" + layout + ") returned a tensor whose shape is not the broadcast shape of "
+                     "the inputs: the inversion is no longer element-wise", case, key=kp + ":shape",
+                     detail={"result_shape": list(iv.shape), "broadcast_shape_of_the_inputs": list(full)})
+            continue
+        far = (iv - V).abs() > 2 * prec
+        if bool(far.any()):
+            bad = far & ~((m.price(*state, iv) - P).abs() <= 1e-13 * max(k, 1.0))
+            ctx.stats["iv_ill_conditioned"] += int((far & ~bad).sum())
+            if bool(bad.any()):
+                idx = tuple(int(z) for z in bad.nonzero()[0])
+                ctx.fail("implied volatility does not reproduce, element by element, the generating volatility to the requested precision for inputs with "
+                         "singleton dimensions (" + layout + ")", case, key=kp,
+                         detail={"element": list(idx), "iv": float(iv[idx]), "sigma": float(V.expand(full)[idx]), "precision": prec})
+    # find_implied_volatility itself on the same layouts: user pricer sg * scale * h(shape, volatility) with `scale` in the layout of the log moneyness and
+    # `shape` in the layout of the maturities above, the prices in the full shape; default bracket or the caller's per-element bracket tensors in the
+    # layout of `scale`
+    for it_ in range(len(IV_LAYOUTS) * 2 + (0 if ctx.tier == "quick" else 300)):
+        layout = IV_LAYOUTS[it_ % len(IV_LAYOUTS)] if it_ < len(IV_LAYOUTS) * 2 else g.choice(IV_LAYOUTS)
+        dec = bool(it_ % 2) if it_ < len(IV_LAYOUTS) * 2 else g.chance(0.5)
+        if it_ < len(IV_LAYOUTS) * 2 and it_ >= len(IV_LAYOUTS):
+            dec = not dec
+        form = g.choice(["exp", "affine", "square"])
+        N, T = g.choice([2, 3]), g.choice([2, 3, 4])
+        sh_a, sh_b, sh_v = iv_layout_shapes(layout, N, T)
+        full = tuple(torch.broadcast_shapes(sh_a, sh_b, sh_v))
+        sg = -1.0 if dec else 1.0
+        A = [g.r.uniform(0.5, 3.0) for _ in range(math.prod(sh_a))]
+        B = [g.r.uniform(0.5, 2.0) for _ in range(math.prod(sh_b))]
+        sigs = [g.r.uniform(0.002, 0.999) for _ in range(math.prod(sh_v))]
+        At, Bt, Vt = (torch.tensor(x_, dtype=torch.float64).reshape(sh_) for x_, sh_ in ((A, sh_a), (B, sh_b), (sigs, sh_v)))
+
+        def pricer(volatility, scale, shape, form=form, sg=sg):
+            hv = torch.exp(shape * volatility) if form == "exp" else (volatility + shape) * (volatility + shape) if form == "square" else shape * volatility
+            return sg * scale * hv
+        price = pricer(Vt, At, Bt)
+        prec = g.choice([1e-4, 1e-6, 1e-9])
+        kw, bracket = {}, g.choice(["default", "per_element"])
+        case = {"user_pricer": form, "decreasing": dec, "layout": layout, "scale": At.tolist(), "shape": Bt.tolist(), "sigma": Vt.tolist(), "precision": prec,
+                "bracket": bracket}
+        if bracket == "per_element":
+            lo_b = [g.choice([0.001, 0.0005, 0.00025]) for _ in A]
+            hi_b = [g.choice([1.0, 1.5, 2.0]) for _ in A]
+            kw = dict(lower=torch.tensor(lo_b, dtype=torch.float64).reshape(sh_a), upper=torch.tensor(hi_b, dtype=torch.float64).reshape(sh_a))
+            case |= {"lower": kw["lower"].tolist(), "upper": kw["upper"].tolist()}
+        direction = "decreasing" if dec else "increasing"
+        kp = f"find_implied_volatility:{direction}:singleton-dims"
+        st, val, mut = call_impl(find_implied_volatility, pricer, price, precision=prec, scale=At, shape=Bt, **kw)
+        ctx.case(case, True, tag="find_iv_layout")
+        ctx.stats[f"find_iv_layout={layout}"] += 1
+        ctx.traces += 1
+        if mut:
+            ctx.mutated("find_implied_volatility", mut, case)
+        if st != "ok":
+            ctx.fail("find_implied_volatility raised for a price generated by the same (monotone) pricer (inputs with singleton dimensions: " + layout + ")",
+                     case, key=kp + ":error", detail=val)
+            continue
+        if tuple(val.shape) != full:
+            ctx.fail("find_implied_volatility of inputs with singleton dimensions (" + layout + ") returned a tensor whose shape is not the broadcast shape "
+                     "of the inputs", case, key=kp + ":shape", detail={"result_shape": list(val.shape), "broadcast_shape_of_the_inputs": list(full)})
+            continue
+        # slope of the pricer >= 0.25 on the bracket: its float evaluation moves the root by < 1e-12
+        off_ = (val - Vt).abs()
+        if bool((off_ > prec * (1 + 1e-9) + 1e-12).any()):
+            idx = tuple(int(z) for z in (off_ > prec * (1 + 1e-9) + 1e-12).nonzero()[0])
+            ctx.fail(f"find_implied_volatility does not recover, element by element, the volatility that generated the price of a pricer that is {direction} in "
+                     "volatility (inputs with singleton dimensions: " + layout + ")", case, key=kp,
+                     detail={"element": list(idx), "iv": float(val[idx]), "sigma": float(Vt.expand(full)[idx]), "precision": prec})
     # ---------------- modules built from a simulated derivative: the state (all of it, or a part) is taken from the derivative
     from pfhedge.instruments import BrownianStock, EuropeanOption, LookbackOption
     for _ in range(40 if ctx.tier == "quick" else 400):
